@@ -2,7 +2,7 @@
 From DV Require Import Base.Prelude Model.NameM Model.MessageM.
 From DV Require Import Proofs.NameOrder Proofs.NameValid Proofs.NameRel Proofs.NameWire Proofs.NameCompress.
 From DV Require Import Proofs.MessageName Proofs.MessageRender Proofs.MessageRead Proofs.MessageRoundtrip Proofs.MessageRoundtrip2.
-From DV Require Import Proofs.MessageSize Proofs.MessageTrunc.
+From DV Require Import Proofs.MessageSize Proofs.MessagePad Proofs.MessageTrunc.
 Open Scope Z_scope.
 
 (* the stages of Message.to_wire *)
@@ -31,6 +31,84 @@ Proof.
   exists r1, tr, r2, b1, s1, b2, s2, b3, s3, b4, s4, r3. repeat split; assumption.
 Qed.
 
+(* ---------- one RR emission taken apart and put together ---------- *)
+Lemma rr_em_split owner ty cl ttl rd oo ro oc rc pos t em t' :
+  rr_em owner ty cl ttl rd oo ro oc rc pos t = Ok (em, t') ->
+  exists e1 t1 e2,
+    nm_em owner oo oc pos t = Ok (e1, t1) /\ rd_em rd ro rc (pos + zlen e1 + 10) t1 = Ok (e2, t') /\
+    (zlen e2 >? 65535) = false /\ pack16 ty = Ok (MessageM.u16 ty) /\ pack16 cl = Ok (MessageM.u16 cl) /\
+    pack32 ttl = Ok (MessageM.u32 ttl) /\
+    em = e1 ++ MessageM.u16 ty ++ MessageM.u16 cl ++ MessageM.u32 ttl ++ MessageM.u16 (zlen e2) ++ e2.
+Proof.
+  intros H. unfold rr_em in H.
+  apply bind_ok in H. destruct H as ([e1 t1] & H1 & H).
+  apply bind_ok in H. destruct H as (h1 & E1 & H). apply bind_ok in H. destruct H as (h2 & E2 & H).
+  apply bind_ok in H. destruct H as (h3 & E3 & H). apply bind_ok in H. destruct H as ([e2 t2] & H2 & H).
+  cbn [fst snd] in *. destruct (zlen e2 >? 65535) eqn:EB; [discriminate|].
+  pose proof E1 as P1. pose proof E2 as P2. pose proof E3 as P3.
+  apply pack16_ok in E1, E2. apply pack32_ok in E3. destruct E1 as (-> & _). destruct E2 as (-> & _). destruct E3 as (-> & _).
+  remember (MessageM.u16 (zlen e2)) as h4. injection H as <- <-. subst h4.
+  exists e1, t1, e2. repeat split; assumption.
+Qed.
+
+Lemma rr_em_join owner ty cl ttl rd oo ro oc rc pos t e1 t1 e2 t' :
+  nm_em owner oo oc pos t = Ok (e1, t1) -> rd_em rd ro rc (pos + zlen e1 + 10) t1 = Ok (e2, t') ->
+  (zlen e2 >? 65535) = false -> pack16 ty = Ok (MessageM.u16 ty) -> pack16 cl = Ok (MessageM.u16 cl) ->
+  pack32 ttl = Ok (MessageM.u32 ttl) ->
+  rr_em owner ty cl ttl rd oo ro oc rc pos t
+  = Ok (e1 ++ MessageM.u16 ty ++ MessageM.u16 cl ++ MessageM.u32 ttl ++ MessageM.u16 (zlen e2) ++ e2, t').
+Proof.
+  intros H1 H2 EB P1 P2 P3. unfold rr_em. rewrite H1. cbn [bind fst snd]. rewrite P1, P2, P3. cbn [bind].
+  rewrite H2. cbn [bind fst snd]. rewrite EB. reflexivity.
+Qed.
+
+Lemma wire_labels_len_ci : forall a b, ci_equal a b -> zlen (wire_labels false a) = zlen (wire_labels false b).
+Proof.
+  unfold ci_equal. induction a as [|l a IH]; intros [|l' b] H; try discriminate; [reflexivity|].
+  cbn [map] in H. injection H as H1 H2. rewrite !wire_labels_cons. rewrite !zlen_cons', !zlen_app'.
+  rewrite (IH b H2). f_equal. f_equal. apply (f_equal (@length Z)) in H1. unfold lower_l in H1. rewrite !map_length in H1.
+  unfold zlen. f_equal. exact H1.
+Qed.
+
+Lemma tbl_ci_refl t : tbl_ci t t.
+Proof. induction t as [|[k v] t IH]; constructor; [split; reflexivity|exact IH]. Qed.
+
+Lemma tsig_reserve_make m kn rd et t :
+  mtsig m = Some (kn, rd) -> rr_em kn tTSIG cANY 0 rd None None false false 0 [] = Ok (et, t) ->
+  compute_tsig_reserve m = Ok (zlen et).
+Proof.
+  intros HM H. unfold compute_tsig_reserve. rewrite HM. rewrite rrset_to_wire_em. unfold run_em, rrset_em, tsig_rrset, wclass.
+  cbn [rrds rdeleting rname rtype rclass rttl rrs_em]. change (zlen (@nil Z)) with 0. rewrite H. cbn [bind fst snd app].
+  rewrite app_nil_r. reflexivity.
+Qed.
+
+(* the reserve computed for a TSIG record depends on the key name only through its label lengths *)
+Lemma tsig_reserve_ci og m m2 kn rd kn' rd' tr pos t et t1 t2 :
+  mtsig m = Some (kn, rd) -> mtsig m2 = Some (kn', rd') -> compute_tsig_reserve m = Ok tr ->
+  name_ok kn -> name_ok kn' -> ci_equal kn' kn ->
+  rr_em kn tTSIG cANY 0 rd og None true false pos t = Ok (et, t1) ->
+  rr_em kn tTSIG cANY 0 rd' og None true false pos t = Ok (et, t2) ->
+  compute_tsig_reserve m2 = Ok tr.
+Proof.
+  intros HM HM2 HTR NO NO' CI H1 H2.
+  destruct (tsig_reserve_spec m kn rd tr HM HTR) as (A & et0 & HE0 & ->).
+  destruct (rr_em_split _ _ _ _ _ _ _ _ _ _ _ _ _ H1) as (e1 & s1 & e2 & N1 & D1 & B1 & P1 & P2 & P3 & ->).
+  destruct (rr_em_split _ _ _ _ _ _ _ _ _ _ _ _ _ H2) as (e1' & s1' & e2' & N1' & D2 & B2 & _ & _ & _ & EQ).
+  assert (e1' = e1 /\ s1' = s1) as (-> & ->) by (split; congruence).
+  apply app_inv_head in EQ. apply app_inv_head in EQ. apply app_inv_head in EQ. apply app_inv_head in EQ.
+  cbn [MessageM.u16 app] in EQ. injection EQ as _ _ EQ. subst e2'.
+  destruct (rd_em_nc _ _ _ _ _ _ D1) as (_ & NC1). destruct (rd_em_nc _ _ _ _ _ _ D2) as (_ & NC2).
+  destruct (rr_em_split _ _ _ _ _ _ _ _ _ _ _ _ _ HE0) as (f1 & u1 & f2 & M1 & M2 & _ & _ & _ & _ & ->).
+  assert (f2 = e2) by (rewrite NC1 in M2; congruence). subst f2.
+  assert (Ef1 : f1 = wire_labels false kn /\ u1 = []).
+  { unfold nm_em in M1. rewrite (full_labels_abs kn None NO) in M1. cbn [bind] in M1. split; congruence. }
+  destruct Ef1 as (-> & ->).
+  assert (M1' : nm_em kn' None false 0 [] = Ok (wire_labels false kn', [])).
+  { unfold nm_em. rewrite (full_labels_abs kn' None NO'). reflexivity. }
+  rewrite (tsig_reserve_make m2 kn' rd' _ _ HM2 (rr_em_join _ _ _ _ _ _ _ _ _ _ _ _ _ _ _ M1' (NC2 _ _) B1 P1 P2 P3)).
+  f_equal. rewrite !zlen_app'. rewrite (wire_labels_len_ci _ _ CI). reflexivity.
+Qed.
+
 Section WithOrigin.
 Variable o : option name.
 Hypothesis OO : org_ok o.
@@ -45,12 +123,58 @@ Definition tail6 (m : msg) (r5 : rst) : res rst :=
   | None => Ok r6
   end.
 
+(* Message.to_wire up to (not including) the first write_header *)
+Definition head5 (m : msg) (ms rp : Z) : res rst :=
+  let r0 := mkRst (repeat 0 12) [] 0 0 0 0 0 (mflags m) (eff_limit ms rp) 0 false in
+  do r1 <- reserve (compute_opt_reserve m 0) r0;
+  do tr <- compute_tsig_reserve m;
+  do r2 <- reserve tr r1;
+  do b1 <- add_questions o (mq m) r2;
+  do b2 <- (if fst b1 then Ok b1 else add_rrsets o 1 (man m) (snd b1));
+  do b3 <- (if fst b2 then Ok b2 else add_rrsets o 2 (mau m) (snd b2));
+  do b4 <- (if fst b3 then Ok b3 else add_rrsets o 3 (mad m) (snd b3));
+  do r3 <- (if fst b4 then Lib eTooBig else Ok (snd b4));
+  let r4 := release_reserved r3 in
+  match mopt m with
+  | Some oo => do br <- add_opt o oo 0 (compute_opt_reserve m 0) tr r4; raise_if_big br
+  | None => Ok r4
+  end.
+
+Lemma to_wire_st_head5 m ms rp : to_wire_st m o ms rp false 0 = do r5 <- head5 m ms rp; tail6 m r5.
+Proof.
+  unfold to_wire_st, head5, tail6.
+  destruct (reserve _ _) as [r1| |]; cbn [bind]; try reflexivity.
+  destruct (compute_tsig_reserve m) as [tr| |]; cbn [bind]; try reflexivity.
+  destruct (reserve tr r1) as [r2| |]; cbn [bind]; try reflexivity.
+  destruct (add_questions o (mq m) r2) as [[b1 s1]| |]; cbn [bind fst snd]; try reflexivity.
+  destruct (if b1 then _ else _) as [[b2 s2]| |]; cbn [bind fst snd]; try reflexivity.
+  destruct (if b2 then _ else _) as [[b3 s3]| |]; cbn [bind fst snd]; try reflexivity.
+  destruct (if b3 then _ else _) as [[b4 s4]| |]; cbn [bind fst snd]; try reflexivity.
+  destruct b4; cbn [bind]; try reflexivity.
+Qed.
+
+Lemma write_header_with_tbl id r r' tq :
+  write_header id r = Ok r' -> write_header id (with_tbl r tq) = Ok (with_tbl r' tq).
+Proof.
+  unfold write_header. cbn [with_tbl set_out rflags cq can cau cad out tbl].
+  destruct (pack16 id); cbn [bind]; try discriminate.
+  destruct (pack16 (rflags r)); cbn [bind]; try discriminate.
+  destruct (pack16 (cq r)); cbn [bind]; try discriminate.
+  destruct (pack16 (can r)); cbn [bind]; try discriminate.
+  destruct (pack16 (cau r)); cbn [bind]; try discriminate.
+  destruct (pack16 (cad r)); cbn [bind]; try discriminate.
+  intros H. injection H as <-. reflexivity.
+Qed.
+
+Definition qrec (q : qd) : rrset := mkRR (q_name q) (q_cl q) (q_ty q) 0 None 0 [].
+
 (* everything before the header is written, relative to an arbitrary 12-octet header `hdr`;
    generic in the well-formedness W of the record sets of a section and the relation D between the
    record sets and the records on the wire *)
 Section Body.
 Variable W : Z -> rrset -> Prop.
 Variable D : Z -> list rrset -> list rrd -> Prop.
+Variable R : list rrset -> list rrd -> list rrset -> Prop.
 Hypothesis chainW : forall sec l r r' file,
   1 <= sec <= 3 ->
   zlen file = zlen (out r) -> TableSound file (tbl r) -> TblBelow r -> Forall (W sec) l ->
@@ -61,7 +185,9 @@ Hypothesis chainW : forall sec l r r' file,
     count_of r' sec = count_of r sec + zlen ds /\
     (forall s, 0 <= s <= 3 -> s <> sec -> count_of r' s = count_of r s) /\
     rflags r' = rflags r /\ maxsz r' = maxsz r /\ reserved r' = reserved r /\ padded r' = padded r /\
-    rsec r <= rsec r' <= Z.max (rsec r) sec.
+    rsec r <= rsec r' <= Z.max (rsec r) sec /\
+    (forall l2 tq, R l ds l2 -> tbl_ci tq (tbl r) ->
+       exists tq', add_rrsets o sec l2 (with_tbl r tq) = Ok (false, with_tbl r' tq') /\ tbl_ci tq' (tbl r')).
 
 Lemma render_body_gen m ms rp r hdr :
   zlen hdr = 12 ->
@@ -82,12 +208,17 @@ Lemma render_body_gen m ms rp r hdr :
     | Some o' => (exists abs', RRreads o o (hdr ++ body) e3 abs' owner' tOPT (opayload o') (oflags o') [FRest] [PB wb] (length (hdr ++ body))) /\
                  ci_equal owner' [[]] /\ opts_wire (oopts o') = Ok wb
     | None => e3 = length (hdr ++ body)
-    end.
+    end /\
+    (forall m2, mflags m2 = mflags m -> mopt m2 = mopt m -> mq m2 = map qrec qs ->
+       R (man m) ds1 (man m2) -> R (mau m) ds2 (mau m2) -> R (mad m) ds3 (mad m2) ->
+       compute_tsig_reserve m2 = compute_tsig_reserve m ->
+       exists tq5, head5 m2 ms rp = Ok (with_tbl r5 tq5) /\ tbl_ci tq5 (tbl r5)).
 Proof.
   intros Hh WQ WA WU WD WO H.
   assert (Hhl : length hdr = 12%nat) by (unfold zlen in Hh; lia).
   destruct (to_wire_st_stages _ _ _ _ _ _ _ H) as (r1 & tr & r2' & bq & s1 & ba & s2 & bu & s3 & bd & s4 & r3 & R1 & TR & R2 & S1 & S2 & S3 & S4 & R3 & FIN).
   set (r0 := mkRst (repeat 0 12) [] 0 0 0 0 0 (mflags m) (eff_limit ms rp) 0 false) in *.
+  pose proof R1 as R1'. pose proof R2 as R2'.
   apply reserve_is in R1. destruct R1 as (a1 & b1 & ->). apply reserve_is in R2. destruct R2 as (a2 & b2 & ->).
   set (r2 := set_limits (set_limits r0 a1 b1) a2 b2) in *.
   assert (bq = false /\ ba = false /\ bu = false /\ bd = false) as (-> & -> & -> & ->).
@@ -99,14 +230,14 @@ Proof.
   unfold finish in FIN. set (r4 := release_reserved s4) in *.
   apply bind_ok in FIN. destruct FIN as (r5 & R5 & FIN).
   (* questions *)
-  destruct (add_questions_chain o OO (mq m) r2 s1 hdr) as (emq & qs & Oq & TSq & TBq & QC & QD & Cq0 & Cq1 & Cq2 & Cq3 & Fq & _ & _ & Pq);
+  destruct (add_questions_chain o OO (mq m) r2 s1 hdr) as (emq & qs & Oq & TSq & TBq & QC & QD & Cq0 & Cq1 & Cq2 & Cq3 & Fq & _ & _ & Pq & REq);
     [rewrite Hh; reflexivity|apply TableSound_nil'|constructor|exact WQ|exact S1|].
   (* answer, authority, additional *)
-  destruct (chainW 1 (man m) s1 s2 (hdr ++ emq)) as (em1 & ds1 & O1 & TS1 & TB1 & C1 & SD1 & N1 & N1' & F1 & _ & _ & P1 & RS1);
+  destruct (chainW 1 (man m) s1 s2 (hdr ++ emq)) as (em1 & ds1 & O1 & TS1 & TB1 & C1 & SD1 & N1 & N1' & F1 & _ & _ & P1 & RS1 & RE1);
     [lia|rewrite Oq, !zlen_app', Hh; reflexivity|exact TSq|exact TBq|exact WA|exact S2|].
-  destruct (chainW 2 (mau m) s2 s3 ((hdr ++ emq) ++ em1)) as (em2 & ds2 & O2 & TS2 & TB2 & C2 & SD2 & N2 & N2' & F2 & _ & _ & P2 & RS2);
+  destruct (chainW 2 (mau m) s2 s3 ((hdr ++ emq) ++ em1)) as (em2 & ds2 & O2 & TS2 & TB2 & C2 & SD2 & N2 & N2' & F2 & _ & _ & P2 & RS2 & RE2);
     [lia|rewrite O1, Oq, !zlen_app', Hh; reflexivity|exact TS1|exact TB1|exact WU|exact S3|].
-  destruct (chainW 3 (mad m) s3 s4 (((hdr ++ emq) ++ em1) ++ em2)) as (em3 & ds3 & O3 & TS3 & TB3 & C3 & SD3 & N3 & N3' & F3 & _ & _ & P3 & RS3);
+  destruct (chainW 3 (mad m) s3 s4 (((hdr ++ emq) ++ em1) ++ em2)) as (em3 & ds3 & O3 & TS3 & TB3 & C3 & SD3 & N3 & N3' & F3 & _ & _ & P3 & RS3 & RE3);
     [lia|rewrite O2, O1, Oq, !zlen_app', Hh; reflexivity|exact TS2|exact TB2|exact WD|exact S4|].
   remember ((((hdr ++ emq) ++ em1) ++ em2) ++ em3) as f3 eqn:Ef3.
   assert (Os4 : out s4 = repeat 0 12 ++ emq ++ em1 ++ em2 ++ em3).
@@ -133,6 +264,26 @@ Proof.
     { destruct (add_questions_req o (mq m) r2 r2 false s1 (req_refl r2)) as (_ & _ & _ & X & _); try exact S1;
         unfold r2; cbn [rsec set_limits r0]; lia. }
     lia. }
+  assert (RE4 : forall m2, mflags m2 = mflags m -> mopt m2 = mopt m -> mq m2 = map qrec qs ->
+       R (man m) ds1 (man m2) -> R (mau m) ds2 (mau m2) -> R (mad m) ds3 (mad m2) ->
+       compute_tsig_reserve m2 = compute_tsig_reserve m ->
+       exists tq4, tbl_ci tq4 (tbl s4) /\
+         head5 m2 ms rp = match mopt m with
+                          | Some oo => do br <- add_opt o oo 0 (compute_opt_reserve m 0) tr (with_tbl r4 tq4); raise_if_big br
+                          | None => Ok (with_tbl r4 tq4)
+                          end).
+  { intros m2 Hfl2 Hopt2 Hq2 HR1 HR2 HR3 Htr2.
+    assert (TC0 : tbl_ci [] (tbl r2)) by (unfold r2; cbn [tbl set_limits r0]; constructor).
+    destruct (REq [] TC0) as (tq1 & Tq & TCq).
+    destruct (RE1 (man m2) tq1 HR1 TCq) as (tq2 & T1 & TC1).
+    destruct (RE2 (mau m2) tq2 HR2 TC1) as (tq3 & T2 & TC2).
+    destruct (RE3 (mad m2) tq3 HR3 TC2) as (tq4 & T3 & TC3).
+    exists tq4. split; [exact TC3|].
+    assert (Hco : compute_opt_reserve m2 0 = compute_opt_reserve m 0) by (unfold compute_opt_reserve; rewrite Hopt2; reflexivity).
+    assert (Er2 : with_tbl r2 [] = r2) by reflexivity. rewrite Er2 in Tq.
+    unfold head5. rewrite Hfl2, Hco, Htr2, Hopt2, Hq2. fold r0. rewrite R1'. cbn [bind]. rewrite TR. cbn [bind].
+    rewrite R2'. cbn [bind]. fold r2. unfold qrec. rewrite Tq. cbn [bind fst snd]. rewrite T1. cbn [bind fst snd].
+    rewrite T2. cbn [bind fst snd]. rewrite T3. cbn [bind fst snd]. reflexivity. }
   destruct (mopt m) as [o'|] eqn:EO.
   - apply bind_ok in R5. destruct R5 as ([b5 s5] & A5 & R5). unfold raise_if_big in R5. cbn [fst snd] in R5.
     destruct b5; [discriminate|]. injection R5 as <-.
@@ -140,7 +291,7 @@ Proof.
     assert (TB4 : TblBelow r4) by (unfold TblBelow, r4 in *; cbn [out tbl release_reserved set_limits]; exact TB3).
     destruct WO as (WO & NWr).
     destruct (add_opt_chain o OO o' (compute_opt_reserve m 0) tr r4 s5 f3 NWr Hz4 TS4 TB4 A5)
-      as (emo & wb & abso & owner' & Oo & HW & CIo & RO & TSo & Q0 & Q1 & Q2 & Q3 & QF).
+      as (emo & wb & abso & owner' & Oo & HW & CIo & RO & TSo & Q0 & Q1 & Q2 & Q3 & QF & REo).
     unfold r4 in Oo, Q0, Q1, Q2, Q3, QF. cbn [out cq can cau cad rflags release_reserved set_limits] in Oo, Q0, Q1, Q2, Q3, QF.
     (* padded and section of s5, TblBelow s5 *)
     assert (X5 : padded s5 = false /\ rsec s5 <= 3 /\ TblBelow s5).
@@ -165,7 +316,11 @@ Proof.
     split; [rewrite Ef3; do 2 apply Chain_app_w; exact C2|].
     split; [apply Chain_app_w; exact C3|].
     split; [exact QD|]. split; [exact SD1|]. split; [exact SD2|]. split; [exact SD3|].
-    split; [exists abso; exact RO|split; [exact CIo|exact HW]].
+    split; [split; [exists abso; exact RO|split; [exact CIo|exact HW]]|].
+    intros m2 Hfl2 Hopt2 Hq2 HR1 HR2 HR3 Htr2.
+    destruct (RE4 m2 Hfl2 Hopt2 Hq2 HR1 HR2 HR3 Htr2) as (tq4 & TC4 & H5).
+    destruct (REo tq4 TC4) as (tq5 & To & TCo).
+    exists tq5. split; [|exact TCo]. rewrite H5, To. reflexivity.
   - injection R5 as <-.
     exists qs, ds1, ds2, ds3, [[]], [], (emq ++ em1 ++ em2 ++ em3),
       (length (hdr ++ emq)), (length ((hdr ++ emq) ++ em1)), (length (((hdr ++ emq) ++ em1) ++ em2)), (length f3), r4.
@@ -178,9 +333,180 @@ Proof.
     split; [rewrite Ef3; do 2 apply Chain_app_w; exact C1|].
     split; [rewrite Ef3; apply Chain_app_w; exact C2|].
     split; [exact C3|].
-    split; [exact QD|]. split; [exact SD1|]. split; [exact SD2|]. split; [exact SD3|]. reflexivity.
+    split; [exact QD|]. split; [exact SD1|]. split; [exact SD2|]. split; [exact SD3|]. split; [reflexivity|].
+    intros m2 Hfl2 Hopt2 Hq2 HR1 HR2 HR3 Htr2.
+    destruct (RE4 m2 Hfl2 Hopt2 Hq2 HR1 HR2 HR3 Htr2) as (tq4 & TC4 & H5).
+    exists tq4. split; [exact H5|exact TC4].
 Qed.
 
+
+Lemma skipn_patch16_12 f v : (12 <= length f)%nat -> skipn 12 (patch16 f 10 v) = skipn 12 f.
+Proof.
+  intros H. unfold patch16. change (Z.to_nat 10) with 10%nat.
+  replace (firstn 10 f ++ MessageM.u16 v ++ skipn (10 + 2) f) with ((firstn 10 f ++ MessageM.u16 v) ++ skipn 12 f)
+    by (rewrite <- app_assoc; reflexivity).
+  apply skipn_app_exact'. rewrite app_length, firstn_length. cbn [length MessageM.u16]. lia.
+Qed.
+
+Definition wf_tsig (m : msg) : Prop :=
+  match mtsig m with
+  | Some (kn, rd) => name_ok kn /\ Forall (piece_wf None) rd /\ shaped tsig_fs rd
+  | None => True
+  end.
+
+(* the final octets: header with the counts, then the chains, the OPT and the TSIG record *)
+Lemma layout_final m ms rp w :
+  Forall (fun rs => name_wf o (rname rs)) (mq m) ->
+  Forall (W 1) (man m) -> Forall (W 2) (mau m) -> Forall (W 3) (mad m) ->
+  match mopt m with Some oo => opts_ok (oopts oo) /\ name_wf o [[]] | None => True end ->
+  wf_tsig m -> to_wire m o ms rp false 0 = Ok w ->
+  exists qs ds1 ds2 ds3 owner' wb body (e0 e1 e2 e3 e4 : nat) (t' : option (name * rdata)),
+    w = hdr_bytes (mid m) (mflags m) (zlen qs) (zlen ds1) (zlen ds2)
+                  (zlen ds3 + opt_count (mopt m) + opt_count t') ++ body /\
+    0 <= mid m <= 65535 /\ 0 <= mflags m <= 65535 /\ zlen qs <= 65535 /\ zlen ds1 <= 65535 /\ zlen ds2 <= 65535 /\
+    zlen ds3 + opt_count (mopt m) + opt_count t' <= 65535 /\
+    QChain o w 12 qs e0 /\ Chain o w e0 ds1 e1 /\ Chain o w e1 ds2 e2 /\ Chain o w e2 ds3 e3 /\
+    Forall2 (q_desc o) (mq m) qs /\ D 1 (man m) ds1 /\ D 2 (mau m) ds2 /\ D 3 (mad m) ds3 /\
+    match mopt m with
+    | Some o' => (exists abs', RRreads o o w e3 abs' owner' tOPT (opayload o') (oflags o') [FRest] [PB wb] e4) /\
+                 ci_equal owner' [[]] /\ opts_wire (oopts o') = Ok wb /\ opts_ok (oopts o')
+    | None => e4 = e3
+    end /\
+    match t' with
+    | Some (kn', rd') => exists x, RRreads o None w e4 kn' x tTSIG cANY 0 tsig_fs rd' (length w)
+    | None => e4 = length w
+    end /\
+    match t', mtsig m with
+    | Some (kn', rd'), Some (kn, rd) => ci_equal kn' kn /\ rdata_ci rd' rd
+    | None, None => True
+    | _, _ => False
+    end /\
+    (forall m2, mid m2 = mid m -> mflags m2 = mflags m -> mopt m2 = mopt m -> mq m2 = map qrec qs ->
+       R (man m) ds1 (man m2) -> R (mau m) ds2 (mau m2) -> R (mad m) ds3 (mad m2) -> mtsig m2 = t' ->
+       to_wire m2 o ms rp false 0 = Ok w).
+Proof.
+  intros WQ WA WU WD WO WT H. unfold to_wire in H. apply bind_ok in H. destruct H as (r & HR & H). injection H as <-.
+  destruct (to_wire_st_SInv _ _ _ _ _ _ _ HR) as ((I12 & _) & _).
+  set (hdr := firstn 12 (out r)).
+  assert (Hh : zlen hdr = 12).
+  { unfold hdr, zlen in *. rewrite firstn_length. lia. }
+  destruct (render_body_gen m ms rp r hdr Hh WQ WA WU WD WO HR)
+    as (qs & ds1 & ds2 & ds3 & owner' & wb & body & e0 & e1 & e2 & e3 & r5 & T6 & O5 & K0 & K1 & K2 & K3 & KF & P5 & TB5 & RS5 &
+        TS5 & QC & C1 & C2 & C3 & QD & SD1 & SD2 & SD3 & HO & RE5).
+  unfold tail6 in T6. apply bind_ok in T6. destruct T6 as (r6 & R6 & T6). pose proof R6 as R6'.
+  destruct (write_header_full _ _ _ R6) as (Er6 & Hid & Hfl & Hc0 & Hc1 & Hc2 & Hc3).
+  rewrite KF, K0, K1, K2, K3 in *.
+  assert (S12 : skipn 12 (out r5) = body) by (rewrite O5; apply skipn_app_exact'; reflexivity).
+  rewrite S12 in Er6.
+  remember (hdr_bytes (mid m) (mflags m) (zlen qs) (zlen ds1) (zlen ds2) (zlen ds3 + opt_count (mopt m))) as h6 eqn:Eh6.
+  assert (Lh6 : length h6 = 12%nat) by (subst h6; reflexivity).
+  assert (F6 : out r6 = h6 ++ body /\ tbl r6 = tbl r5 /\ cq r6 = zlen qs /\ can r6 = zlen ds1 /\ cau r6 = zlen ds2 /\
+               cad r6 = zlen ds3 + opt_count (mopt m) /\ rflags r6 = mflags m /\ padded r6 = false).
+  { rewrite Er6. cbn [out tbl cq can cau cad rflags padded set_out]. repeat split; assumption. }
+  destruct F6 as (F6o & F6t & F6q & F6a & F6u & F6d & F6f & F6p). clear Er6.
+  unfold wf_tsig in WT.
+  destruct (mtsig m) as [[kn rd]|] eqn:ET.
+  - (* with a TSIG record *)
+    destruct WT as (NOk & POk & SHk).
+    apply bind_ok in T6. destruct T6 as ([b7 s7] & A7 & T6). apply bind_ok in T6. destruct T6 as (r7 & R7 & T6).
+    unfold raise_if_big in R7. cbn [fst snd] in R7. destruct b7; [discriminate|]. injection R7 as <-.
+    rewrite write_tsig_eq in A7. rewrite F6p in A7. cbn [negb] in A7.
+    apply bind_ok in A7. destruct A7 as ([b8 s8] & A8 & A7). cbn [fst snd] in A7.
+    assert (TB6 : TblBelow r6).
+    { unfold TblBelow in *. rewrite F6t, F6o. rewrite O5 in TB5. rewrite zlen_app' in *.
+      change (zlen (repeat 0 12)) with 12 in TB5. unfold zlen at 1. rewrite Lh6. exact TB5. }
+    destruct (tracked_spec _ _ _ _ _ _ (ext_rr_em _ _ _ _ _ _ _ _ _) TB6 A8) as (_ & et & new8 & HE8 & _ & [(Eb & _ & Es8)|(Eb & _)]);
+      [|subst b8; discriminate].
+    subst b8. apply bind_ok in A7. destruct A7 as (c & PC & A7). injection A7 as <-.
+    pose proof T6 as T6'. pose proof A8 as A8'.
+    assert (Fs8 : out s8 = (h6 ++ body) ++ et /\ tbl s8 = tbl r5 ++ new8 /\ cq s8 = zlen qs /\ can s8 = zlen ds1 /\ cau s8 = zlen ds2 /\
+                  cad s8 = zlen ds3 + opt_count (mopt m) + 1 /\ rflags s8 = mflags m).
+    { rewrite Es8. cbn [out tbl cq can cau cad rflags set_out inc_count set_rsec Z.eqb Pos.eqb].
+      rewrite F6o, F6t, F6q, F6a, F6u, F6d, F6f. repeat split; reflexivity. }
+    destruct Fs8 as (F8o & F8t & F8q & F8a & F8u & F8d & F8f). clear Es8.
+    destruct (write_header_full _ _ _ T6) as (Er & _ & _ & _ & _ & _ & Hc3').
+    cbn [out tbl cq can cau cad rflags set_out] in Er, Hc3'.
+    rewrite F8o, F8q, F8a, F8u, F8d, F8f in Er. rewrite F8d in Hc3'.
+    assert (L6 : (12 <= length ((h6 ++ body) ++ et))%nat) by (rewrite !app_length, Lh6; lia).
+    rewrite skipn_patch16_12 in Er by exact L6.
+    rewrite <- app_assoc in Er. rewrite (skipn_app_exact' h6) in Er by exact Lh6.
+    remember (hdr_bytes (mid m) (mflags m) (zlen qs) (zlen ds1) (zlen ds2) (zlen ds3 + opt_count (mopt m) + 1)) as hF eqn:EhF.
+    assert (LhF : length hF = 12%nat) by (subst hF; reflexivity).
+    assert (Ehdr : hdr = hF).
+    { unfold hdr. rewrite Er. cbn [out set_out]. rewrite <- LhF. apply (firstn_app_exact hF (body ++ et)). }
+    rewrite F6o, F6t in HE8.
+    assert (Z6 : zlen (h6 ++ body) = zlen (hdr ++ body)) by (rewrite !zlen_app', Hh; unfold zlen; rewrite Lh6; reflexivity).
+    rewrite Z6 in HE8.
+    destruct (rr_em_read_x o None tsig_fs kn kn tTSIG cANY 0 rd true false (hdr ++ body) (tbl r5) et _ OO Logic.I TS5
+                         (full_labels_abs kn o NOk) NOk POk SHk HE8)
+      as (_ & _ & _ & _ & kn' & xk & rd' & c1 & rdl & CIk & NOk' & HXk & CIr & _ & _ & A & B & C & E & SLk & RE8).
+    assert (RR : forall m2, mid m2 = mid m -> mflags m2 = mflags m -> mopt m2 = mopt m -> mq m2 = map qrec qs ->
+       R (man m) ds1 (man m2) -> R (mau m) ds2 (mau m2) -> R (mad m) ds3 (mad m2) -> mtsig m2 = Some (kn', rd') ->
+       to_wire m2 o ms rp false 0 = Ok (out r)).
+    { intros m2 Hid2 Hfl2 Hopt2 Hq2 HR1 HR2 HR3 Ht2.
+      assert (Htr2 : compute_tsig_reserve m2 = compute_tsig_reserve m).
+      { destruct (RE8 (tbl r5) kn kn (tbl_ci_refl _) (full_labels_abs kn o NOk) (lsim_refl _ _)) as (tqx & HEx & _).
+        destruct (to_wire_st_stages _ _ _ _ _ _ _ HR) as (_ & tr & _ & _ & _ & _ & _ & _ & _ & _ & _ & _ & _ & TR & _).
+        rewrite TR. exact (tsig_reserve_ci o m m2 kn rd kn' rd' tr _ _ _ _ _ ET Ht2 TR NOk NOk' CIk HE8 HEx). }
+      destruct (RE5 m2 Hfl2 Hopt2 Hq2 HR1 HR2 HR3 Htr2) as (tq5 & H5 & TC5).
+      unfold to_wire. rewrite to_wire_st_head5, H5. cbn [bind]. unfold tail6. rewrite Hid2, Ht2.
+      rewrite (write_header_with_tbl _ _ _ tq5 R6'). cbn [bind].
+      rewrite write_tsig_eq. cbn [padded with_tbl set_out]. rewrite F6p. cbn [negb].
+      destruct (tracked_sim (rr_em kn' tTSIG cANY 0 rd' o None true false) _ _ _ _ _ tq5 A8') as (tq8 & T8 & TC8).
+      { rewrite F6t. exact TC5. }
+      { intros em0 t0 HE0. rewrite F6o, F6t, Z6 in HE0. rewrite F6o, Z6.
+        assert (em0 = et /\ t0 = tbl r5 ++ new8) as (-> & ->) by (split; congruence).
+        apply (RE8 tq5 kn' kn' TC5 (full_labels_abs kn' o NOk') SLk). }
+      rewrite T8. cbn [bind fst snd]. cbn [cad with_tbl set_out]. rewrite PC. cbn [bind]. unfold raise_if_big. cbn [fst snd bind].
+      change (set_out (with_tbl s8 tq8) (patch16 (out (with_tbl s8 tq8)) 10 (cad s8)) (tbl (with_tbl s8 tq8)))
+        with (with_tbl (set_out s8 (patch16 (out s8) 10 (cad s8)) (tbl s8)) tq8).
+      rewrite (write_header_with_tbl _ _ _ tq8 T6'). reflexivity. }
+    exists qs, ds1, ds2, ds3, owner', wb, (body ++ et), e0, e1, e2, e3, (length (hdr ++ body)), (Some (kn', rd')).
+    rewrite Er. cbn [out set_out opt_count]. rewrite Ehdr in *. rewrite EhF in *.
+    split; [reflexivity|]. split; [exact Hid|]. split; [exact Hfl|]. split; [lia|]. split; [lia|]. split; [lia|].
+    split; [lia|].
+    split; [rewrite app_assoc; apply QChain_app_w; exact QC|].
+    split; [rewrite app_assoc; apply Chain_app_w; exact C1|].
+    split; [rewrite app_assoc; apply Chain_app_w; exact C2|].
+    split; [rewrite app_assoc; apply Chain_app_w; exact C3|].
+    split; [exact QD|]. split; [exact SD1|]. split; [exact SD2|]. split; [exact SD3|].
+    split.
+    { destruct (mopt m) as [o'|].
+      - destruct HO as ((abso & RO) & CI & HW). destruct WO as (WO1 & _).
+        split; [exists abso; rewrite app_assoc; apply RRreads_app; exact RO|]. auto.
+      - symmetry. exact HO. }
+    split; [|split; [split; [exact CIk|exact CIr]|]].
+    { exists xk. rewrite app_assoc. exists c1, rdl. split; [exact A|]. split; [lia|]. split; [exact B|]. split; [exact C|]. exact E. }
+    intros m2 Hid2 Hfl2 Hopt2 Hq2 HR1 HR2 HR3 Ht2. rewrite (RR m2 Hid2 Hfl2 Hopt2 Hq2 HR1 HR2 HR3 Ht2).
+    rewrite Er. reflexivity.
+  - (* without TSIG *)
+    injection T6 as <-.
+    assert (RR : forall m2, mid m2 = mid m -> mflags m2 = mflags m -> mopt m2 = mopt m -> mq m2 = map qrec qs ->
+       R (man m) ds1 (man m2) -> R (mau m) ds2 (mau m2) -> R (mad m) ds3 (mad m2) -> mtsig m2 = None ->
+       to_wire m2 o ms rp false 0 = Ok (out r6)).
+    { intros m2 Hid2 Hfl2 Hopt2 Hq2 HR1 HR2 HR3 Ht2.
+      assert (Htr2 : compute_tsig_reserve m2 = compute_tsig_reserve m).
+      { unfold compute_tsig_reserve. rewrite Ht2, ET. reflexivity. }
+      destruct (RE5 m2 Hfl2 Hopt2 Hq2 HR1 HR2 HR3 Htr2) as (tq5 & H5 & TC5).
+      unfold to_wire. rewrite to_wire_st_head5, H5. cbn [bind]. unfold tail6. rewrite Hid2, Ht2.
+      rewrite (write_header_with_tbl _ _ _ tq5 R6'). reflexivity. }
+    assert (Ehdr : hdr = h6).
+    { unfold hdr. rewrite F6o. rewrite <- Lh6. apply (firstn_app_exact h6 body). }
+    exists qs, ds1, ds2, ds3, owner', wb, body, e0, e1, e2, e3,
+      (match mopt m with Some _ => length (h6 ++ body) | None => e3 end), (@None (name * rdata)).
+    rewrite F6o. rewrite Ehdr in *. cbn [opt_count]. rewrite Z.add_0_r. rewrite Eh6 in *.
+    split; [reflexivity|]. split; [exact Hid|]. split; [exact Hfl|]. split; [lia|]. split; [lia|]. split; [lia|].
+    split; [lia|].
+    split; [exact QC|]. split; [exact C1|]. split; [exact C2|]. split; [exact C3|].
+    split; [exact QD|]. split; [exact SD1|]. split; [exact SD2|]. split; [exact SD3|].
+    split.
+    { destruct (mopt m) as [o'|]; [|reflexivity].
+      destruct HO as (RO & CI & HW). destruct WO as (WO1 & _). split; [exact RO|]. auto. }
+    split; [|split; [exact Logic.I|]].
+    { destruct (mopt m) as [o'|]; [reflexivity|exact HO]. }
+    intros m2 Hid2 Hfl2 Hopt2 Hq2 HR1 HR2 HR3 Ht2. rewrite (RR m2 Hid2 Hfl2 Hopt2 Hq2 HR1 HR2 HR3 Ht2).
+    rewrite F6o. reflexivity.
+Qed.
 End Body.
 
 Lemma render_body m ms rp r hdr :
@@ -201,8 +527,12 @@ Lemma render_body m ms rp r hdr :
     end.
 Proof.
   intros Hh [W0 WQ WA WU WD KA KU KD WO] H.
-  apply (render_body_gen (fun _ => wf_rrset o) (fun _ => SecDesc o)
-                         (fun sec l r r' file => add_rrsets_chain o OO sec l r r' file) m ms rp r hdr Hh WQ WA WU WD WO H).
+  destruct (render_body_gen (fun _ => wf_rrset o) (fun _ => SecDesc o) Rebuilt
+                         (fun sec l r r' file => add_rrsets_chain_x o OO sec l r r' file) m ms rp r hdr Hh WQ WA WU WD WO H)
+    as (qs & ds1 & ds2 & ds3 & owner' & wb & body & e0 & e1 & e2 & e3 & r5 &
+        A1&A2&A3&A4&A5&A6&A7&A8&A9&A10&A11&A12&A13&A14&A15&A16&A17&A18&A19&A20&_).
+  exists qs, ds1, ds2, ds3, owner', wb, body, e0, e1, e2, e3, r5.
+  repeat (split; [assumption|]). exact A20.
 Qed.
 
 (* ---------- the TSIG record ---------- *)
@@ -236,12 +566,6 @@ Definition tsig_equiv (a b : option (name * rdata)) : Prop :=
   end.
 
 Definition msg_equiv_t (m' m : msg) : Prop := msg_equiv m' m /\ tsig_equiv (mtsig m') (mtsig m).
-
-Definition wf_tsig (m : msg) : Prop :=
-  match mtsig m with
-  | Some (kn, rd) => name_ok kn /\ Forall (piece_wf None) rd /\ shaped tsig_fs rd
-  | None => True
-  end.
 
 Definition read_result_t (id fl : Z) (qs : list qd) (ds1 ds2 ds3 : list rrd) (o : option optrec)
            (t : option (name * rdata)) : msg :=
@@ -332,7 +656,11 @@ Qed.
 Lemma read_result_equiv m qs ds1 ds2 ds3 :
   WfMsg o m -> Forall2 (q_desc o) (mq m) qs -> SecDesc o (man m) ds1 -> SecDesc o (mau m) ds2 -> SecDesc o (mad m) ds3 ->
   msg_equiv (read_result (mid m) (mflags m) qs ds1 ds2 ds3 (mopt m)) m /\
-  mtsig (read_result (mid m) (mflags m) qs ds1 ds2 ds3 (mopt m)) = None.
+  mtsig (read_result (mid m) (mflags m) qs ds1 ds2 ds3 (mopt m)) = None /\
+  mq (read_result (mid m) (mflags m) qs ds1 ds2 ds3 (mopt m)) = map qrec qs /\
+  Rebuilt (man m) ds1 (man (read_result (mid m) (mflags m) qs ds1 ds2 ds3 (mopt m))) /\
+  Rebuilt (mau m) ds2 (mau (read_result (mid m) (mflags m) qs ds1 ds2 ds3 (mopt m))) /\
+  Rebuilt (mad m) ds3 (mad (read_result (mid m) (mflags m) qs ds1 ds2 ds3 (mopt m))).
 Proof.
   intros [W0 WQ WA WU WD KA KU KD WO] QD SD1 SD2 SD3. unfold read_result.
   set (m0 := mkMsg (mid m) (mflags m) [] [] [] [] None None).
@@ -343,13 +671,13 @@ Proof.
     { clear. induction qs as [|q qs IH]; intros x Hx; cbn [fold_left]; [exact Hx|]. apply IH. exact Hx. }
     apply X. reflexivity. }
   assert (G1 : get_sec m1 1 = []) by (unfold get_sec; cbn [Z.eqb Pos.eqb]; rewrite Q2; reflexivity).
-  destruct (section_rebuilt o 1 (man m) ds1 m1 ltac:(lia) SD1 WA KA G1) as (l1 & EQ1 & E1).
+  destruct (section_rebuilt o 1 (man m) ds1 m1 ltac:(lia) SD1 WA KA G1) as (l1 & EQ1 & E1 & RB1).
   rewrite E1. set (m2 := set_sec m1 1 l1).
   assert (G2 : get_sec m2 2 = []) by (unfold m2, get_sec, set_sec; cbn [Z.eqb Pos.eqb mau]; rewrite Q3; reflexivity).
-  destruct (section_rebuilt o 2 (mau m) ds2 m2 ltac:(lia) SD2 WU KU G2) as (l2 & EQ2 & E2).
+  destruct (section_rebuilt o 2 (mau m) ds2 m2 ltac:(lia) SD2 WU KU G2) as (l2 & EQ2 & E2 & RB2).
   rewrite E2. set (m3 := set_sec m2 2 l2).
   assert (G3 : get_sec m3 3 = []) by (unfold m3, m2, get_sec, set_sec; cbn [Z.eqb Pos.eqb mad]; rewrite Q4; reflexivity).
-  destruct (section_rebuilt o 3 (mad m) ds3 m3 ltac:(lia) SD3 WD KD G3) as (l3 & EQ3 & E3).
+  destruct (section_rebuilt o 3 (mad m) ds3 m3 ltac:(lia) SD3 WD KD G3) as (l3 & EQ3 & E3 & RB3).
   rewrite E3. set (m4 := set_sec m3 3 l3).
   assert (F : mid m4 = mid m /\ mflags m4 = mflags m /\ mq m4 = mq m1 /\ man m4 = l1 /\ mau m4 = l2 /\ mad m4 = l3 /\ mopt m4 = None /\ mtsig m4 = None).
   { unfold m4, m3, m2. cbn [mid mflags mq man mau mad mopt mtsig set_sec Z.eqb Pos.eqb]. rewrite Q5, Q6, Q1, T1. auto 10. }
@@ -359,122 +687,44 @@ Proof.
     unfold q_equiv. cbn [rname rclass rtype rcovers rdeleting rttl rrds]. auto 10. }
   destruct (mopt m) as [o'|] eqn:EO.
   - unfold msg_equiv. cbn [mid mflags mq man mau mad mopt mtsig set_opt]. rewrite F1, F2, F3, F4, F5, F6, EO.
-    split; [repeat split; assumption|exact F8].
-  - unfold msg_equiv. rewrite F1, F2, F3, F4, F5, F6, F7, EO. split; [repeat split; assumption|exact F8].
+    split; [repeat split; assumption|]. split; [exact F8|]. split; [rewrite Q7; reflexivity|]. auto.
+  - unfold msg_equiv. rewrite F1, F2, F3, F4, F5, F6, F7, EO. split; [repeat split; assumption|].
+    split; [exact F8|]. split; [rewrite Q7; reflexivity|]. auto.
 Qed.
 
-Lemma skipn_patch16_12 f v : (12 <= length f)%nat -> skipn 12 (patch16 f 10 v) = skipn 12 f.
+
+Theorem render_parse_rerender_lemma m ms rp w :
+  WfMsg o m -> wf_tsig m -> to_wire m o ms rp false 0 = Ok w ->
+  exists m', from_wire w o po0 = Ok m' /\ msg_equiv_t m' m /\ to_wire m' o ms rp false 0 = Ok w.
 Proof.
-  intros H. unfold patch16. change (Z.to_nat 10) with 10%nat.
-  replace (firstn 10 f ++ MessageM.u16 v ++ skipn (10 + 2) f) with ((firstn 10 f ++ MessageM.u16 v) ++ skipn 12 f)
-    by (rewrite <- app_assoc; reflexivity).
-  apply skipn_app_exact'. rewrite app_length, firstn_length. cbn [length MessageM.u16]. lia.
+  intros WF WT H. pose proof WF as [W0 WQ WA WU WD KA KU KD WO].
+  destruct (layout_final (fun _ => wf_rrset o) (fun _ => SecDesc o) Rebuilt
+                         (fun sec l r r' file => add_rrsets_chain_x o OO sec l r r' file) m ms rp w WQ WA WU WD WO WT H)
+    as (qs & ds1 & ds2 & ds3 & owner' & wb & body & e0 & e1 & e2 & e3 & e4 & t' & Ew & Hid & Hfl & L0 & L1 & L2 & L3 &
+        QC & C1 & C2 & C3 & QD & SD1 & SD2 & SD3 & HO & HT & TE & RR).
+  destruct (read_result_equiv m qs ds1 ds2 ds3 WF QD SD1 SD2 SD3) as (EQ & TN & MQ & RB1 & RB2 & RB3).
+  exists (read_result_t (mid m) (mflags m) qs ds1 ds2 ds3 (mopt m) t'). split; [|split].
+  - rewrite Ew in *. eapply read_structure_t; try eassumption.
+    + apply (SecDesc_ordinary o) with (l := man m); assumption.
+    + apply (SecDesc_ordinary o) with (l := mau m); assumption.
+    + apply (SecDesc_ordinary o) with (l := mad m); assumption.
+  - unfold msg_equiv_t, read_result_t. destruct t' as [[kn' rd']|].
+    + split.
+      * destruct EQ as (Q1 & Q2 & Q3 & Q4 & Q5 & Q6 & Q7). unfold msg_equiv.
+        cbn [mid mflags mq man mau mad mopt set_tsig]. auto 10.
+      * cbn [mtsig set_tsig tsig_equiv]. destruct (mtsig m) as [[kn rd]|]; [exact TE|contradiction].
+    + split; [exact EQ|]. rewrite TN. destruct (mtsig m) as [[kn rd]|]; [contradiction|exact Logic.I].
+  - destruct EQ as (Q1 & Q2 & _ & _ & _ & _ & Q7).
+    apply RR; unfold read_result_t; destruct t' as [[kn' rd']|]; cbn [mid mflags mq man mau mad mopt mtsig set_tsig];
+      try assumption; try reflexivity.
 Qed.
 
 Theorem render_parse_full_lemma m ms rp w :
   WfMsg o m -> wf_tsig m -> to_wire m o ms rp false 0 = Ok w ->
   exists m', from_wire w o po0 = Ok m' /\ msg_equiv_t m' m.
 Proof.
-  intros WF WT H. unfold to_wire in H. apply bind_ok in H. destruct H as (r & HR & H). injection H as <-.
-  destruct (to_wire_st_SInv _ _ _ _ _ _ _ HR) as ((I12 & _) & _).
-  set (hdr := firstn 12 (out r)).
-  assert (Hh : zlen hdr = 12).
-  { unfold hdr, zlen in *. rewrite firstn_length. lia. }
-  destruct (render_body m ms rp r hdr Hh WF HR)
-    as (qs & ds1 & ds2 & ds3 & owner' & wb & body & e0 & e1 & e2 & e3 & r5 & T6 & O5 & K0 & K1 & K2 & K3 & KF & P5 & TB5 & RS5 &
-        TS5 & QC & C1 & C2 & C3 & QD & SD1 & SD2 & SD3 & HO).
-  destruct (read_result_equiv m qs ds1 ds2 ds3 WF QD SD1 SD2 SD3) as (EQ & TN).
-  pose proof WF as [W0 WQ WA WU WD KA KU KD WO].
-  pose proof (SecDesc_ordinary o _ _ SD1 WA) as OR1. pose proof (SecDesc_ordinary o _ _ SD2 WU) as OR2.
-  pose proof (SecDesc_ordinary o _ _ SD3 WD) as OR3.
-  unfold tail6 in T6. apply bind_ok in T6. destruct T6 as (r6 & R6 & T6).
-  destruct (write_header_full _ _ _ R6) as (Er6 & Hid & Hfl & Hc0 & Hc1 & Hc2 & Hc3).
-  rewrite KF, K0, K1, K2, K3 in *.
-  assert (S12 : skipn 12 (out r5) = body) by (rewrite O5; apply skipn_app_exact'; reflexivity).
-  rewrite S12 in Er6.
-  remember (hdr_bytes (mid m) (mflags m) (zlen qs) (zlen ds1) (zlen ds2) (zlen ds3 + opt_count (mopt m))) as h6 eqn:Eh6.
-  assert (Lh6 : length h6 = 12%nat) by (subst h6; reflexivity).
-  assert (F6 : out r6 = h6 ++ body /\ tbl r6 = tbl r5 /\ cq r6 = zlen qs /\ can r6 = zlen ds1 /\ cau r6 = zlen ds2 /\
-               cad r6 = zlen ds3 + opt_count (mopt m) /\ rflags r6 = mflags m /\ padded r6 = false).
-  { rewrite Er6. cbn [out tbl cq can cau cad rflags padded set_out]. repeat split; assumption. }
-  destruct F6 as (F6o & F6t & F6q & F6a & F6u & F6d & F6f & F6p). clear Er6.
-  unfold wf_tsig in WT.
-  destruct (mtsig m) as [[kn rd]|] eqn:ET.
-  - (* with a TSIG record *)
-    destruct WT as (NOk & POk & SHk).
-    apply bind_ok in T6. destruct T6 as ([b7 s7] & A7 & T6). apply bind_ok in T6. destruct T6 as (r7 & R7 & T6).
-    unfold raise_if_big in R7. cbn [fst snd] in R7. destruct b7; [discriminate|]. injection R7 as <-.
-    rewrite write_tsig_eq in A7. rewrite F6p in A7. cbn [negb] in A7.
-    apply bind_ok in A7. destruct A7 as ([b8 s8] & A8 & A7). cbn [fst snd] in A7.
-    assert (TB6 : TblBelow r6).
-    { unfold TblBelow in *. rewrite F6t, F6o. rewrite O5 in TB5. rewrite zlen_app' in *.
-      change (zlen (repeat 0 12)) with 12 in TB5. unfold zlen at 1. rewrite Lh6. exact TB5. }
-    destruct (tracked_spec _ _ _ _ _ _ (ext_rr_em _ _ _ _ _ _ _ _ _) TB6 A8) as (_ & et & new8 & HE8 & _ & [(Eb & _ & Es8)|(Eb & _)]);
-      [|subst b8; discriminate].
-    subst b8. apply bind_ok in A7. destruct A7 as (c & _ & A7). injection A7 as <-.
-    assert (Fs8 : out s8 = (h6 ++ body) ++ et /\ tbl s8 = tbl r5 ++ new8 /\ cq s8 = zlen qs /\ can s8 = zlen ds1 /\ cau s8 = zlen ds2 /\
-                  cad s8 = zlen ds3 + opt_count (mopt m) + 1 /\ rflags s8 = mflags m).
-    { rewrite Es8. cbn [out tbl cq can cau cad rflags set_out inc_count set_rsec Z.eqb Pos.eqb].
-      rewrite F6o, F6t, F6q, F6a, F6u, F6d, F6f. repeat split; reflexivity. }
-    destruct Fs8 as (F8o & F8t & F8q & F8a & F8u & F8d & F8f). clear Es8.
-    destruct (write_header_full _ _ _ T6) as (Er & _ & _ & _ & _ & _ & Hc3').
-    cbn [out tbl cq can cau cad rflags set_out] in Er, Hc3'.
-    rewrite F8o, F8q, F8a, F8u, F8d, F8f in Er. rewrite F8d in Hc3'.
-    assert (L6 : (12 <= length ((h6 ++ body) ++ et))%nat) by (rewrite !app_length, Lh6; lia).
-    rewrite skipn_patch16_12 in Er by exact L6.
-    rewrite <- app_assoc in Er. rewrite (skipn_app_exact' h6) in Er by exact Lh6.
-    remember (hdr_bytes (mid m) (mflags m) (zlen qs) (zlen ds1) (zlen ds2) (zlen ds3 + opt_count (mopt m) + 1)) as hF eqn:EhF.
-    assert (LhF : length hF = 12%nat) by (subst hF; reflexivity).
-    assert (Ehdr : hdr = hF).
-    { unfold hdr. rewrite Er. cbn [out set_out]. rewrite <- LhF. apply (firstn_app_exact hF (body ++ et)). }
-    (* the TSIG record read back *)
-    rewrite F6o, F6t in HE8.
-    assert (Z6 : zlen (h6 ++ body) = zlen (hdr ++ body)) by (rewrite !zlen_app', Hh; unfold zlen; rewrite Lh6; reflexivity).
-    rewrite Z6 in HE8.
-    destruct (rr_em_read o None tsig_fs kn kn tTSIG cANY 0 rd true false (hdr ++ body) (tbl r5) et _ OO Logic.I TS5
-                         (full_labels_abs kn o NOk) NOk POk SHk HE8)
-      as (_ & _ & _ & _ & kn' & xk & rd' & c1 & rdl & CIk & NOk' & HXk & CIr & _ & _ & A & B & C & E).
-    exists (read_result_t (mid m) (mflags m) qs ds1 ds2 ds3 (mopt m) (Some (kn', rd'))). split.
-    + rewrite Er. cbn [out set_out]. rewrite Ehdr in *. rewrite EhF in *.
-      eapply (read_structure_t (mid m) (mflags m) qs ds1 ds2 ds3 (mopt m) (Some (kn', rd')) owner' wb (body ++ et) e0 e1 e2 e3
-                               (length (hdr_bytes (mid m) (mflags m) (zlen qs) (zlen ds1) (zlen ds2) (zlen ds3 + opt_count (mopt m) + 1) ++ body)));
-        cbn [opt_count]; try assumption; try lia.
-      * rewrite app_assoc. apply QChain_app_w. exact QC.
-      * rewrite app_assoc. apply Chain_app_w. exact C1.
-      * rewrite app_assoc. apply Chain_app_w. exact C2.
-      * rewrite app_assoc. apply Chain_app_w. exact C3.
-      * destruct (mopt m) as [o'|].
-        -- destruct HO as ((abso & RO) & CI & HW). destruct WO as (WO1 & _).
-           split; [exists abso; rewrite app_assoc; apply RRreads_app; exact RO|]. auto.
-        -- symmetry. exact HO.
-      * exists xk. rewrite app_assoc. exists c1, rdl. split; [exact A|]. split; [lia|]. split; [exact B|]. split; [exact C|]. exact E.
-    + unfold msg_equiv_t, read_result_t. split.
-      * destruct EQ as (Q1 & Q2 & Q3 & Q4 & Q5 & Q6 & Q7). unfold msg_equiv.
-        cbn [mid mflags mq man mau mad mopt set_tsig]. auto 10.
-      * cbn [mtsig set_tsig tsig_equiv]. rewrite ET. auto.
-  - (* without TSIG *)
-    injection T6 as <-.
-    assert (Ehdr : hdr = h6).
-    { unfold hdr. rewrite F6o. rewrite <- Lh6. apply (firstn_app_exact h6 body). }
-    exists (read_result_t (mid m) (mflags m) qs ds1 ds2 ds3 (mopt m) None). split.
-    + rewrite F6o. rewrite Ehdr in *. rewrite Eh6 in *.
-      replace (zlen ds3 + opt_count (mopt m)) with (zlen ds3 + opt_count (mopt m) + @opt_count (name * rdata) None)
-        by (cbn [opt_count]; lia).
-      eapply (read_structure_t (mid m) (mflags m) qs ds1 ds2 ds3 (mopt m) None owner' wb body e0 e1 e2 e3
-                               (match mopt m with
-                                | Some _ => length (hdr_bytes (mid m) (mflags m) (zlen qs) (zlen ds1) (zlen ds2)
-                                                              (zlen ds3 + opt_count (mopt m) + @opt_count (name * rdata) None) ++ body)
-                                | None => e3 end));
-        cbn [opt_count]; try assumption; try lia;
-        try (replace (zlen ds3 + opt_count (mopt m) + 0) with (zlen ds3 + opt_count (mopt m)) by lia; assumption).
-      * destruct (mopt m) as [o'|]; [|reflexivity].
-        destruct HO as (RO & CI & HW). destruct WO as (WO1 & _).
-        replace (zlen ds3 + opt_count (Some o') + 0) with (zlen ds3 + opt_count (Some o')) by lia.
-        split; [exact RO|]. auto.
-      * destruct (mopt m) as [o'|].
-        -- reflexivity.
-        -- replace (zlen ds3 + @opt_count optrec None + 0) with (zlen ds3 + @opt_count optrec None) by lia. exact HO.
-    + unfold msg_equiv_t, read_result_t. split; [exact EQ|]. rewrite TN, ET. exact Logic.I.
+  intros WF WT H. destruct (render_parse_rerender_lemma m ms rp w WF WT H) as (m' & A & B & _).
+  exists m'. split; assumption.
 Qed.
 
 End WithOrigin.
